@@ -439,3 +439,153 @@ func TestC01WitnessEmptyKey(t *testing.T) {
 		Quick: 40, Thorough: 400, Gen: gen, Run: runC01,
 	}, "empty-key", "load-error", "mismatch")
 }
+
+// --- chronicler facet: INSERT / UPDATE / DELETE choice in chroniclerV2.Write ----------
+
+type C01ChronScenario struct {
+	Cfg  ChronCfg  `json:"cfg"`
+	Keys []KeySpec `json:"keys"`
+	Ops  []Op      `json:"ops"` // put (fresh treasure) | mod (modify the treasure loaded from disk) | del | batch | sync | reopen
+}
+
+func genC01Chron(t *rapid.T) C01ChronScenario {
+	var s C01ChronScenario
+	if rapid.IntRange(0, 2).Draw(t, "servercfg") == 0 {
+		s.Cfg = ChronCfg{BlockSize: 0, Name: "sanct/realm/c01" + rapid.StringMatching(`[a-z0-9]{0,6}`).Draw(t, "nm")}
+	} else {
+		s.Cfg = ChronCfg{BlockSize: rapid.SampledFrom([]int{64, 300, 4096, 65536}).Draw(t, "bs")}
+	}
+	cfg := genCfg{maxKeyLen: 300, maxOps: 50, maxData: 20000, structural: []string{"batch", "sync", "reopen"}, minKeys: 1, maxKeys: 6}
+	s.Keys = genKeys(t, cfg)
+	bs := s.Cfg.BlockSize
+	if bs == 0 {
+		bs = 4096
+	}
+	s.Ops = genOps(t, cfg, len(s.Keys), bs)
+	// turn roughly half of the puts into modifications of the loaded treasure
+	for i := range s.Ops {
+		if s.Ops[i].Kind == "put" && rapid.Bool().Draw(t, "asmod") {
+			s.Ops[i].Kind = "mod"
+		}
+		for j := range s.Ops[i].Sub {
+			if s.Ops[i].Sub[j].Kind == "put" && rapid.Bool().Draw(t, "asmod") {
+				s.Ops[i].Sub[j].Kind = "mod"
+			}
+		}
+	}
+	return s
+}
+
+func runC01Chron(s C01ChronScenario) pbt.Outcome {
+	dir := scratchDir()
+	defer os.RemoveAll(dir)
+	keyStr := make([]string, len(s.Keys))
+	for i, k := range s.Keys {
+		keyStr[i] = k.String()
+		if keyStr[i] == "" {
+			keyStr[i] = "e"
+		}
+	}
+	model := map[string][]byte{}
+	c := newChron(dir, s.Cfg)
+	loaded := map[string]treasureT{} // treasures that came from disk (they carry a file pointer)
+	ver := 0
+	var reopens, mods, dels int
+	mkT := func(o Op) (treasureT, string) {
+		ver++
+		k := keyStr[o.Key%len(keyStr)]
+		content := versioned(ver, o.Data.Bytes())
+		switch o.Kind {
+		case "del":
+			dels++
+			delete(model, k)
+			if t, ok := loaded[k]; ok {
+				g := t.StartTreasureGuard(true, guardBodyAuth)
+				t.BodySetForDeletion(g, "verif", false)
+				t.ReleaseTreasureGuard(g)
+				delete(loaded, k)
+				return t, k
+			}
+			return mkTreasure(k, nil, true), k
+		case "mod":
+			if t, ok := loaded[k]; ok {
+				mods++
+				g := t.StartTreasureGuard(true, guardBodyAuth)
+				t.SetContentByteArray(g, content)
+				t.ReleaseTreasureGuard(g)
+				model[k] = content
+				return t, k
+			}
+			fallthrough
+		default:
+			model[k] = content
+			return mkTreasure(k, content, false), k
+		}
+	}
+	verify := func(stage string) *pbt.Outcome {
+		got, c2 := loadAllT(dir, s.Cfg, loaded)
+		c = c2
+		if !sameState(got, model) {
+			o := pbt.Failf("mismatch", "%s: chronicler.Load gives %d keys, model has %d: %s", stage, len(got), len(model), diffKeys(got, model))
+			return &o
+		}
+		return nil
+	}
+	for i, o := range s.Ops {
+		switch o.Kind {
+		case "put", "mod", "del":
+			t, _ := mkT(o)
+			c.Write([]treasureT{t})
+		case "batch":
+			var ts []treasureT
+			seen := map[string]bool{}
+			for _, so := range o.Sub {
+				k := keyStr[so.Key%len(keyStr)]
+				if seen[k] {
+					continue // one treasure object per key per batch, as the swamp hands them over
+				}
+				seen[k] = true
+				t, _ := mkT(so)
+				ts = append(ts, t)
+			}
+			c.Write(ts)
+		case "sync":
+			if err := c.Sync(); err != nil {
+				return pbt.Failf("io-error", "op %d Sync: %v", i, err)
+			}
+		case "reopen":
+			if err := c.Close(); err != nil {
+				return pbt.Failf("io-error", "op %d Close: %v", i, err)
+			}
+			reopens++
+			if f := verify(fmt.Sprintf("after close at op %d", i)); f != nil {
+				return *f
+			}
+		}
+	}
+	if err := c.Close(); err != nil {
+		return pbt.Failf("io-error", "final Close: %v", err)
+	}
+	if f := verify("final"); f != nil {
+		return *f
+	}
+	c.Close()
+	out := pbt.Outcome{NonTrivial: reopens >= 1 && mods >= 1 && dels >= 1}
+	if mods > 0 {
+		out.Classes = append(out.Classes, "modified-loaded-treasure")
+	}
+	if reopens > 0 {
+		out.Classes = append(out.Classes, "has-reopen")
+	}
+	return out
+}
+
+func TestC01Chronicler(t *testing.T) {
+	pbt.Main(t, pbt.Spec[C01ChronScenario]{
+		ID: "C01", Facet: "chronicler",
+		Rule: "histories through chroniclerV2.Write/Sync/Close/Load with fresh treasures (INSERT), modifications and deletions of treasures loaded from disk (file pointer set ⇒ UPDATE / DELETE), " +
+			"block sizes 64..65536 and the server construction; Load must equal a map model after every close; non-trivial = ≥1 reopen AND ≥1 modification of a loaded treasure AND ≥1 delete",
+		Quick: 1200, Thorough: 60000,
+		Gen: genC01Chron, Run: runC01Chron,
+	})
+}
